@@ -58,7 +58,8 @@ impl G {
             justice_properties: self.justice.iter().map(|j| j.iter().map(|&c| l(c)).collect()).collect(),
             fairness_constraints: self.fairness.iter().map(|&c| l(c)).collect(),
             and_gates: self.gates.iter().map(|&(o, a, b)| AndGate { inputs: [l(a), l(b)], output: l(o) }).collect(),
-            symbols: vec![Symbol { target: SymbolTarget::Output(0), name: Cow::Borrowed("sym \u{e9}") }],
+            // a symbol for the first output if there is one (a symbol without target is not a legal file)
+            symbols: if self.outputs.is_empty() { vec![] } else { vec![Symbol { target: SymbolTarget::Output(0), name: Cow::Borrowed("sym \u{e9}") }] },
             comment: Some("carried\nover".to_string()),
         }
     }
@@ -623,6 +624,26 @@ fn check_assignment<L: LitName>(sc: &Scope, tier: Tier, idx: usize, acc: &mut Re
                     check_graph::<L>(&h, acc, "pair");
                 }
             }
+            // (d) the root literal referenced from exactly ONE section (latch next-state, bad,
+            // constraint, fairness, justice) and nothing else: with trim, the cone of every kind
+            // of root must survive
+            if mode == 0 && sc.g >= 1 && sc.g <= 2 && (r >> 1) > sc.i + sc.l {
+                for sect in 0..5 {
+                    if sect == 0 && sc.l == 0 {
+                        continue;
+                    }
+                    let mut h = base.clone();
+                    h.latches = (0..sc.l).map(|k| (2 * (1 + sc.i + k), if sect == 0 { r } else { 0 }, [Some(false), Some(true), None][(ri + k) % 3])).collect();
+                    match sect {
+                        1 => h.bad = vec![r],
+                        2 => h.constraints = vec![r],
+                        3 => h.fairness = vec![r],
+                        4 => h.justice = vec![vec![r]],
+                        _ => {}
+                    }
+                    check_graph::<L>(&h, acc, "single-section");
+                }
+            }
             // every permutation of the variable indices (small scopes)
             if mode == 1 && ri % 4 == 0 {
                 for p in &full_perms {
@@ -874,4 +895,4 @@ pub fn replay(v: &Value) -> (bool, String) {
     (verdict.is_some(), text)
 }
 
-pub const RULE: &str = "every and-inverter graph of the scope (inputs + latches <= 2, gates <= 2 quick / 3 thorough; each gate input over every literal: constants, both polarities of every input, latch and gate incl. itself and later gates, and an undefined variable; roots: every literal as output alone and as latch next-state / output / bad / constraint / fairness / justice entry; gate list orders; variable numberings incl. reversal with gaps and all permutations for small scopes; redefinition variants; deep chains) x all 8 (trim, structural_hash, const_fold) combinations; truth tables over all assignments of the <= 2 free variables; non-trivial = well-formed graphs with at least one gate that were renumbered successfully";
+pub const RULE: &str = "every and-inverter graph of the scope (inputs + latches <= 2, gates <= 2 quick / 3 thorough; each gate input over every literal: constants, both polarities of every input, latch and gate incl. itself and later gates, and an undefined variable; roots: every literal as output alone, as the only entry of exactly one of latch next-state / bad / constraint / fairness / justice, and in all of them at once; gate list orders; variable numberings incl. reversal with gaps and all permutations for small scopes; redefinition variants; deep chains) x all 8 (trim, structural_hash, const_fold) combinations; truth tables over all assignments of the <= 2 free variables; non-trivial = well-formed graphs with at least one gate that were renumbered successfully";
